@@ -168,9 +168,14 @@ pub mod payload {
     /// Decode varint-prefixed data payload.
     pub fn decode<R: io::Read + ?Sized>(reader: &mut R) -> Result<Vec<u8>, wire::Error> {
         let size = VarInt::decode(reader)?;
-        let mut data = vec![0; *size as usize];
-        reader.read_exact(&mut data[..])?;
+        // N.b. the size is chosen by the remote and can be as large as 2^62 - 1; never allocate
+        // it up front, only grow the buffer with the bytes that are actually there.
+        let mut data = Vec::new();
+        let read = io::Read::read_to_end(&mut io::Read::take(&mut *reader, *size), &mut data)?;
 
+        if read as u64 != *size {
+            return Err(io::Error::from(io::ErrorKind::UnexpectedEof).into());
+        }
         Ok(data)
     }
 }
